@@ -234,7 +234,7 @@ func (s *stringObject) setForeignIdx(idx valueInt, val, receiver Value, throw bo
 
 func (s *stringObject) defineOwnPropertyStr(name unistring.String, descr PropertyDescriptor, throw bool) bool {
 	if i := strToGoIdx(name); i >= 0 && i < s.length {
-		_, ok := s._defineOwnProperty(name, &valueProperty{enumerable: true}, descr, throw)
+		_, ok := s._defineOwnProperty(name, &valueProperty{value: s._getIdx(i), enumerable: true}, descr, throw)
 		return ok
 	}
 
@@ -242,13 +242,8 @@ func (s *stringObject) defineOwnPropertyStr(name unistring.String, descr Propert
 }
 
 func (s *stringObject) defineOwnPropertyIdx(idx valueInt, descr PropertyDescriptor, throw bool) bool {
-	i := int64(idx)
-	if i >= 0 && i < int64(s.length) {
-		s.val.runtime.typeErrorResult(throw, "Cannot redefine property: %d", i)
-		return false
-	}
-
-	return s.baseObject.defineOwnPropertyStr(idx.string(), descr, throw)
+	// same validation as for the canonical string form of the index (a compatible descriptor, e.g. an empty one, is accepted)
+	return s.defineOwnPropertyStr(idx.string(), descr, throw)
 }
 
 type stringPropIter struct {
